@@ -131,8 +131,8 @@ def _paths(spec):
 
 def classify(case):
     if 'spec' in case and 'rewrite' not in case:
-        s = _paths(case['spec']) / max(1, len(case['spec']))
-        yield 'sharing-factor ' + ('<4' if s < 4 else '4..1e3' if s < 1e3 else '1e3..1e9' if s < 1e9 else '>1e9')
+        s = _paths(case['spec']) // max(1, len(case['spec']))          # integers: 2^1000 paths do not fit a float
+        yield 'sharing-factor ' + ('<4' if s < 4 else '4..1e3' if s < 10 ** 3 else '1e3..1e9' if s < 10 ** 9 else '>1e9')
         yield 'shape=' + case.get('shape', '?')
     elif 'rewrite' in case:
         for name, _ in case['rewrite']:
@@ -146,7 +146,7 @@ def nt(case):
         return True
     if 'raw' in case:
         return len(case['raw']) > 12
-    return _paths(case['spec']) / max(1, len(case['spec'])) >= 4
+    return _paths(case['spec']) >= 4 * max(1, len(case['spec']))
 
 
 # --------------------------------------------------------------------------------------------------
